@@ -35,6 +35,24 @@ int main(int argc,char**argv){ uint64_t seed=argc>1?strtoull(argv[1],0,0):1; int
     for(int w=0; w<100 && !atomic_load(&fired); w++) usleep(50000);
     if(!atomic_load(&fired)) fail("a timer re-armed to an earlier start did not fire within 5 s of its new start (150 ms): clock/later-timers-pending",c,others,0);
     dispatch_source_cancel(ds); for(int j=0;j<(others?4:0);j++) dispatch_source_cancel(later[j]); }
+  // settings replaced while a firing of the old settings is latched but not yet delivered (the target queue is busy): the handler
+  // must follow only the new settings - not before the new start, count bounded by the boundaries of the new schedule
+  for(int c=0;c<6 && !viol;c++){ int once=c/3; c%=3;     /* once: the old schedule fires a single time before it is replaced (the timer stays armed); otherwise several times (it is disarmed) */
+    dispatch_queue_t tq=dispatch_queue_create("c11t",NULL); dispatch_semaphore_t gate=dispatch_semaphore_create(0);
+    dispatch_time_t base = c==0? DISPATCH_TIME_NOW : c==1? (1ull<<63) : DISPATCH_WALLTIME_NOW;
+    dispatch_source_t ds=dispatch_source_create(DISPATCH_SOURCE_TYPE_TIMER,0,0,tq); __block uint64_t ns=0; __block _Atomic long tot=0; __block _Atomic int inv=0; uint64_t iv=40000000ull;
+    dispatch_source_set_event_handler(ds,^{ uint64_t tn=clk(CLK[c]); unsigned long n=dispatch_source_get_data(ds); atomic_fetch_add(&inv,1);
+      if(ns && tn<ns) fail("a timer whose settings were replaced ran its handler before the new start (a firing of the old settings survived): clock/early_ns",c,(long)(ns-tn),0);
+      long t=atomic_fetch_add(&tot,(long)n)+(long)n; long bounds = (ns && tn>=ns) ? (long)((tn-ns)/iv)+1 : 0;
+      if(ns && t>bounds) fail("a timer whose settings were replaced reported more firings than boundaries of the new schedule passed: clock/total/boundaries",c,t,bounds); });
+    dispatch_source_set_timer(ds,dispatch_time(base,10000000ll),once?10000000000ull:15000000ull,0); dispatch_activate(ds);
+    dispatch_async(tq,^{ dispatch_semaphore_wait(gate,DISPATCH_TIME_FOREVER); });       // the target queue is busy: firings latch
+    usleep(120000);
+    ns=clk(CLK[c])+400000000ull; atomic_store(&tot,0); dispatch_source_set_timer(ds,dispatch_time(base,400000000ll),iv,0);
+    usleep(20000); dispatch_semaphore_signal(gate);
+    for(int w=0; w<40 && !atomic_load(&inv); w++) usleep(50000);
+    if(!atomic_load(&inv)) fail("a timer whose settings were replaced never fired within 2 s of its new start (400 ms): clock",c,0,0);
+    dispatch_source_cancel(ds); dispatch_release(ds); dispatch_release(tq); c+=once*3; }
   struct after *A=calloc((size_t)na,sizeof *A);
   uint64_t horizon_ms = 1500;
   for(int i=0;i<na;i++){ struct after *a=&A[i]; a->clock=(int)(rnd()%3); int64_t d;
